@@ -861,4 +861,135 @@ theorem sliceRead_frame (st st' : Store) (fid : Nat)
 
 end
 
+/-! ## whole histories on one vector field -/
+
+/-- operations of a history that only uses vector field 0 (plus raw slot reads), with values of
+`8*w` bytes -/
+def vecOp (w : Nat) : Op → Bool
+  | .vpush 0 v => v.length == 8 * w
+  | .vset 0 _ v => v.length == 8 * w
+  | .vinsert 0 _ v => v.length == 8 * w
+  | .vpop 0 | .vget 0 _ | .vlen 0 | .vremove 0 _ | .vswap 0 _ _ | .vswaprm 0 _ | .vclear 0 => true
+  | .raw _ => true
+  | _ => false
+
+theorem refOfSize_words {w : Nat} (hw : 0 < w) : refOfSize (8 * w) = false → w = 1 := by
+  intro h; simp [refOfSize] at h; omega
+
+theorem optObs_ne_revert (o : Option (List Nat)) : (optObs o != Obs.revert) = true := by
+  cases o <;> simp [optObs]
+
+theorem vec_history (H : List Nat → Nat) (fid w N : Nat) (hw : 0 < w) (hN : N < 2 ^ 64) (hsep : VecSep H fid (N * w)) :
+    ∀ (ops : List Op) (st : Store) (xs : List (List Nat)), (∀ op ∈ ops, vecOp w op = true) →
+      VecRep H st fid w (refOfSize (8 * w)) xs → xs.length + ops.length + 1 ≤ N →
+      histProp [.vec xs] ops (runSlot H [⟨.vec (8 * w), fid⟩] st ops) = true
+  | [], _, _, _, _, _ => rfl
+  | op :: ops, st, xs, hops, h, hb => by
+    have hr := refOfSize_words hw
+    have hop := hops op (List.mem_cons_self ..)
+    have hrest : ∀ o ∈ ops, vecOp w o = true := fun o ho => hops o (List.mem_cons_of_mem _ ho)
+    have hlen : xs.length + ops.length + 2 ≤ N := by simpa [Nat.add_assoc] using hb
+    have hsepX : VecSep H fid ((xs.length + 1) * w) := VecSep_mono H hsep (Nat.mul_le_mul_right w (by omega))
+    have hsep0 : VecSep H fid (xs.length * w) := VecSep_mono H hsep (Nat.mul_le_mul_right w (by omega))
+    have IH := fun st' ys (h' : VecRep H st' fid w (refOfSize (8 * w)) ys) (hb' : ys.length + ops.length + 1 ≤ N) =>
+      vec_history H fid w N hw hN hsep ops st' ys hrest h' hb'
+    cases op with
+    | raw k =>
+      simp only [runSlot, stepSlot, histProp, stepAbs, optObs_ne_revert, Bool.true_and]
+      exact IH st xs h (by omega)
+    | vpush f v =>
+      cases f with
+      | succ f => simp [vecOp] at hop
+      | zero =>
+        have hv : v.length = 8 * w := by simpa [vecOp] using hop
+        simp only [runSlot, stepSlot, histProp, stepAbs, List.getElem?_cons_zero, List.set_cons_zero, beq_self_eq_true,
+          Bool.true_and]
+        exact IH _ _ (vecPush_rep H v hw hr hv (by omega) hsepX h) (by simp; omega)
+    | vpop f =>
+      cases f with
+      | succ f => simp [vecOp] at hop
+      | zero =>
+        obtain ⟨e1, e2⟩ := vecPop_rep H hw hr (by omega) hsep0 h
+        simp only [runSlot, stepSlot, histProp, stepAbs, List.getElem?_cons_zero]
+        rw [e1]
+        cases hg : xs.getLast? with
+        | none =>
+          have hx : xs = [] := by simpa using hg
+          subst hx
+          simp only [optObs, beq_self_eq_true, Bool.true_and]
+          exact IH _ _ (by simpa using e2) (by simp; omega)
+        | some l =>
+          simp only [optObs, List.set_cons_zero, beq_self_eq_true, Bool.true_and]
+          exact IH _ _ e2 (by simp; omega)
+    | vget f i =>
+      cases f with
+      | succ f => simp [vecOp] at hop
+      | zero =>
+        simp only [runSlot, stepSlot, histProp, stepAbs, List.getElem?_cons_zero, vecGet_rep H h, Option.map_some,
+          beq_self_eq_true, Bool.true_and]
+        exact IH st xs h (by omega)
+    | vlen f =>
+      cases f with
+      | succ f => simp [vecOp] at hop
+      | zero =>
+        simp only [runSlot, stepSlot, histProp, stepAbs, List.getElem?_cons_zero, h.len, beq_self_eq_true, Bool.true_and]
+        exact IH st xs h (by omega)
+    | vset f i v =>
+      cases f with
+      | succ f => simp [vecOp] at hop
+      | zero =>
+        have hv : v.length = 8 * w := by simpa [vecOp] using hop
+        by_cases hi : i < xs.length
+        · obtain ⟨st', e1, e2⟩ := vecSet_rep H i v hw hr hv hsep0 h hi
+          simp only [runSlot, stepSlot, histProp, stepAbs, List.getElem?_cons_zero, e1, Option.map_some, hi, if_true, List.set_cons_zero, beq_self_eq_true, Bool.true_and]
+          exact IH _ _ e2 (by simp; omega)
+        · simp [runSlot, stepSlot, histProp, stepAbs, vecSet_oob H i v h hi, hi]
+    | vremove f i =>
+      cases f with
+      | succ f => simp [vecOp] at hop
+      | zero =>
+        by_cases hi : i < xs.length
+        · obtain ⟨st', e1, e2, _⟩ := vecRemove_rep H i hw hr (by omega) hsep0 h hi
+          simp only [runSlot, stepSlot, histProp, stepAbs, List.getElem?_cons_zero, e1, Option.map_some, List.getElem?_eq_getElem hi, List.set_cons_zero, beq_self_eq_true, Bool.true_and]
+          exact IH _ _ e2 (by rw [List.length_eraseIdx_of_lt hi]; omega)
+        · simp [runSlot, stepSlot, histProp, stepAbs, vecRemove_oob H i h hi, List.getElem?_eq_none (Nat.le_of_not_lt hi)]
+    | vinsert f i v =>
+      cases f with
+      | succ f => simp [vecOp] at hop
+      | zero =>
+        have hv : v.length = 8 * w := by simpa [vecOp] using hop
+        by_cases hi : i ≤ xs.length
+        · obtain ⟨st', e1, e2, _⟩ := vecInsert_rep H i v hw hr hv (by omega) hsepX h hi
+          simp only [runSlot, stepSlot, histProp, stepAbs, List.getElem?_cons_zero, e1, Option.map_some, hi, if_true, List.set_cons_zero, beq_self_eq_true, Bool.true_and]
+          exact IH _ _ e2 (by simp; omega)
+        · simp [runSlot, stepSlot, histProp, stepAbs, vecInsert_oob H i v h hi, hi]
+    | vswap f i j =>
+      cases f with
+      | succ f => simp [vecOp] at hop
+      | zero =>
+        by_cases hi : i < xs.length ∧ j < xs.length
+        · obtain ⟨st', e1, e2, _⟩ := vecSwap_rep H i j hw hr hsep0 h hi.1 hi.2
+          simp only [runSlot, stepSlot, histProp, stepAbs, List.getElem?_cons_zero, e1, Option.map_some, hi, and_self, if_true, List.set_cons_zero, beq_self_eq_true, Bool.true_and]
+          refine IH _ _ e2 ?_
+          simp [swapList, List.getElem?_eq_getElem hi.1, List.getElem?_eq_getElem hi.2]; omega
+        · simp [runSlot, stepSlot, histProp, stepAbs, vecSwap_oob H i j h hi, hi]
+    | vswaprm f i =>
+      cases f with
+      | succ f => simp [vecOp] at hop
+      | zero =>
+        by_cases hi : i < xs.length
+        · obtain ⟨st', l, e0, e1, e2, _⟩ := vecSwapRemove_rep H i hw hr (by omega) hsep0 h hi
+          simp only [runSlot, stepSlot, histProp, stepAbs, List.getElem?_cons_zero, e1, Option.map_some, List.getElem?_eq_getElem hi, e0, List.set_cons_zero, beq_self_eq_true, Bool.true_and]
+          exact IH _ _ e2 (by simp; omega)
+        · simp [runSlot, stepSlot, histProp, stepAbs, vecSwapRemove_oob H i h hi, List.getElem?_eq_none (Nat.le_of_not_lt hi)]
+    | vclear f =>
+      cases f with
+      | succ f => simp [vecOp] at hop
+      | zero =>
+        simp only [runSlot, stepSlot, histProp, stepAbs, List.getElem?_cons_zero, List.set_cons_zero]
+        have : (Obs.bool (vecClear st fid).2 != Obs.revert) = true := by simp
+        simp only [this, Bool.true_and]
+        exact IH _ _ (vecClear_rep H st fid w _) (by simp; omega)
+    | _ => simp [vecOp] at hop
+
 end SwayVerif.Storage
